@@ -39,12 +39,18 @@ def _tz(pendulum, z):
     return t
 
 
-def _mk(pendulum, z, f):
+def _mk(pendulum, z, f, converted=False):
     if z == "date":
         return pendulum.Date(*f[:3])
     if z is None:
         return pendulum.DateTime(*f)
-    return pendulum.DateTime.create(*f, tz=_tz(pendulum, z))
+    x = pendulum.DateTime.create(*f, tz=_tz(pendulum, z))
+    if converted:
+        # same value obtained by conversion from UTC (carries the fold the conversion produced, usually 0)
+        y = x.in_timezone("UTC").in_timezone(_tz(pendulum, z))
+        if (obs.fields(y), obs.offset_s(y)) == (obs.fields(x), obs.offset_s(x)):
+            return y
+    return x
 
 
 def _ref_step(z, f, unit, amount):
@@ -84,8 +90,9 @@ def check_range(acc, pendulum, z, f, span, sign, mode, unit, n):
     other = c04.add_wall(f if z != "date" else tuple(f[:3]) + (0, 0, 0, 0), span, sign)
     if other is None or not (3 <= other[0] <= 9996):
         return
-    a = _mk(pendulum, z, f)
-    b = _mk(pendulum, z, other)
+    conv = (n % 2 == 0)
+    a = _mk(pendulum, z, f, converted=conv)
+    b = _mk(pendulum, z, other, converted=conv)
     if z not in (None, "date") and (obs.fields(a) != tuple(f) or obs.fields(b) != tuple(other)):
         acc.c["skipped_endpoint_not_valid_wall"] += 1
         return
